@@ -185,6 +185,8 @@ def case_list(tier):
                     inds += [[0, 1], [-2, -1], [1, 1]]  # consecutive runs (also counted from the end), a repeated position
                 for ind in inds:
                     cases.append((kind, "take", "take", 1, shape, axis, ind))
+                    if kind == "numpy" and ind in (0, [0], -1):
+                        cases.append((kind, "take", "take", 1, shape, axis - len(shape), ind))  # the axis counted from the end
                     if kind == "xarray" and shape[axis] > 1:
                         cases.append((kind, "take", "take", 1, shape, axis, ind, "labelled"))
     # mixed dtypes: concrete witnesses (values a narrower dtype cannot hold), compared with NumPy on the promoted arrays
